@@ -290,9 +290,8 @@ func (p *proxyConn) handleUpgradeResponse(res *http.Response) error {
 
 	uconn, ok := res.Body.(io.ReadWriteCloser)
 	if !ok {
-		log.Error(res.Request.Context(), "internal error: switching protocols response with non-writable body")
-		p.traceWroteResponse(res, errors.New("switching protocols response with non-writable body"))
-		return errClose
+		log.Error(res.Request.Context(), "switching protocols response with non-writable body")
+		return p.writeErrorResponse(res.Request, errNoProtocolSwitch)
 	}
 	res.Body = panicBody
 
